@@ -17,7 +17,7 @@ RULE = ("cases = site-model kind x (shape 1e-2..1e2, p_inv in [0,0.99], K 1..16,
 ASSUMPTIONS = ["the identities of the statement are the specification; individual Weibull rates are compared with the median-of-equiprobable-bins discretisation written from the formula"]
 BUDGET = {"quick": 60, "thorough": 400}
 ROUNDS = {"thorough": 16}
-FLOORS = {"overlay.C05.judged": {"quick": 100, "thorough": 1500}, "read_orders": 3, "identity_checks": 200, "after_update_checks": 100, "batched_slices": 50, "kinds": 4, "nested_batches": 20, "api_built_anonymous_parameters": 100, "updates_in_place_same_object": 200, "updates_through_another_view": 200}
+FLOORS = {"overlay.C05.judged": {"quick": 100, "thorough": 1500}, "read_orders": 3, "identity_checks": 200, "after_update_checks": 100, "batched_slices": 50, "kinds": 4, "nested_batches": 20, "api_built_anonymous_parameters": 100, "updates_in_place_same_object": 200, "updates_through_another_view": 200, "interrupted_notifications": 50}
 
 
 def _cases(tier, seed):
@@ -28,7 +28,7 @@ def _cases(tier, seed):
     for i in range(n):
         s = gm.random_site(rng, kinds[i % len(kinds)], wide=True)
         if i % 7 == 0 and "pinv" in s:
-            s["pinv"] = float(rng.choice([0.0, 1e-12, 0.5, 0.99]))
+            s["pinv"] = float(rng.choice([0.0, 1e-12, 0.5, 0.99, 1 - 2.5e-7, 1 - 1e-9]))  # up to "nearly every site is invariant"
         hist = []
         for _ in range(int(rng.integers(1, 5))):
             s2 = gm.random_site(rng, s["kind"], wide=True)
@@ -106,6 +106,34 @@ def _run_case(case):
         C["api_built_anonymous_parameters"] = 1
     orders = list(case.get("read_orders", [])) or [0]
     reads = [0]
+    if kind in ("weibull", "weibull+inv") and style_seed % 5 == 0 and "shape" in s:
+        # fault injection: the shape sits behind a transform (the ADVI / HMC / MAP set-up); one change notification is cut short by an
+        # exception raised in a listener that comes after the model (a logger, a user callback); the updates that follow still arrive
+        tp_spec = dict(gm.site_json(s))
+        tp_spec["shape"] = {"id": "site.shape", "type": "TransformedParameter", "transform": "torch.distributions.ExpTransform",
+                            "x": {"id": "site.shape.unres", "type": "Parameter", "tensor": [float(np.log(s["shape"]))], "dtype": "torch.float64"}}
+        m2, d2 = tt.load(tp_spec)
+        _ = m2.rates()
+
+        class Failing:
+            def __init__(self):
+                self.armed = True
+
+            def handle_parameter_changed(self, variable, index, event):
+                if self.armed:
+                    self.armed = False
+                    raise KeyError("injected failure in a listener")
+
+        d2["site.shape"].add_parameter_listener(Failing())
+        s_mid, s_new = float(s["shape"] * 1.7), float(s["shape"] * 0.6)
+        try:
+            d2["site.shape.unres"].tensor = torch.tensor([np.log(s_mid)], dtype=torch.float64)
+        except KeyError:
+            pass
+        _check(V, C, dict(s, shape=s_mid), _np(m2.rates(), kind), _np(m2.probabilities(), kind), "after the update whose notification was interrupted")
+        d2["site.shape.unres"].tensor = torch.tensor([np.log(s_new)], dtype=torch.float64)
+        C["interrupted_notifications"] = 1
+        _check(V, C, dict(s, shape=s_new), _np(m2.rates(), kind), _np(m2.probabilities(), kind), "after an update that followed an interrupted notification")
 
     def read():
         """rates() and probabilities() in a generated order (either accessor may be the one that finds the model dirty), sometimes twice"""
